@@ -38,7 +38,7 @@ def plan(tier, seed):
 
 
 def mandatory(tier):
-    return ["ac/True", "ac/False", "D/2", "D/3", "compose_affine", "batch>1", "bracket", "bch_commuting", "bch_noncommuting", "bch_series_terms", "bracket/options/sigma", "bracket/options/sigma+spacing", "bracket/options/spacing", "logv"] + [f"bch_terms/{k}" for k in range(6)]
+    return ["ac/True", "ac/False", "D/2", "D/3", "compose_affine", "batch>1", "bracket", "bch_commuting", "bch_noncommuting", "bch_series_terms", "bracket/options/sigma", "bracket/options/sigma+spacing", "bracket/options/spacing", "logv", "logv/bch_terms/0", "logv/bch_terms/1", "logv/bch_terms/2", "logv/bch_terms/3"] + [f"bch_terms/{k}" for k in range(6)]
 
 
 def to_samples(w, shape, ac):
@@ -198,3 +198,17 @@ def run_item(ctx, item):
             # one fixed-point iteration must already reduce the residual of the initial guess v0 = flow
             r0 = float(np.abs(to_samples((e - f)[0].double().numpy(), sshape, ac)).max())
             ctx.true("logv_improves_on_initial_guess", err <= r0 + 1e-3, key=f"logv/roundtrip/ac={ac}", err=err, initial=r0, **info)
+            # iteration counts and truncation orders ("iteration counts" of the quantifier): the residual must not grow
+            # with more iterations, for any bch_terms, and the input field is left untouched
+            prev = None
+            bt = int(rng.integers(0, 4))
+            e_before = e.clone()
+            for iters in (1, 2, 4, 7):
+                ctx.bucket(f"logv/bch_terms/{bt}")
+                bk = U.logv(e, num_iters=iters, bch_terms=bt, align_corners=ac, spacing=spacing)
+                er = float(np.abs(to_samples((bk - f)[0].double().numpy(), sshape, ac)).max())
+                ctx.true("logv_input_not_modified", bool((e == e_before).all()), key="logv/input_mutated", bch_terms=bt, num_iters=iters, **info)
+                ctx.close("logv_roundtrip_within_bound_for_all_iteration_counts", er, 0.0, max(0.4 * amp * amp + 0.1 * amp, 1.05 * r0), key=f"logv/iterations/bch_terms={bt}", num_iters=iters, amplitude=amp, **info)
+                if prev is not None:
+                    ctx.true("logv_error_does_not_grow_with_iterations", er <= 1.25 * prev + 2e-3, key=f"logv/iterations/bch_terms={bt}", num_iters=iters, err=er, previous=prev, amplitude=amp, **info)
+                prev = er
